@@ -42,6 +42,10 @@ func caseSrc(c *Case, at atoms, i int, bare bool) string {
 	if c.Pre != "" {
 		// first step, then the receiver as it stands (P) and the start of the callback trace (C)
 		pre = preSrc(c.Pre) + "\necho \"\\n@@P\", json_encode($r), \"\\n@@C\";\n"
+		if c.M0 != "" {
+			// three-step: the earlier call and its result (W) come first
+			pre = "$w = " + callSrc(c.firstCall(), at, false) + ";\necho \"\\n@@W\", json_encode($w);\nif (is_string($w)) { echo \"\\n@@X\", bin2hex($w); }\necho \"\\n@@Q\", json_encode($r);\n" + pre
+		}
 	}
 	body := pre + "$v = " + call + ";\necho \"\\n@@V\", json_encode($v);\nif (is_string($v)) { echo \"\\n@@H\", bin2hex($v); }\n"
 	if bare {
@@ -105,6 +109,11 @@ func parseSection(out string, i int) (Obs, bool) {
 				o.Extra = map[string]string{}
 			}
 			o.Extra[p[:2]] = p[2:]
+		case 'W', 'X', 'Q':
+			if o.Extra == nil {
+				o.Extra = map[string]string{}
+			}
+			o.Extra[p[:1]] = p[1:]
 		case 'P':
 			o.Pre = p[1:]
 		case 'C':
@@ -259,6 +268,9 @@ func compare(c *Case, e *Exp, o *Obs) string {
 	}
 	var cl []string
 	if c.Pre != "" {
+		if c.M0 != "" && !firstOK(c, preAtoms, o.Extra["W"], o.Extra["X"], o.Extra["Q"]) {
+			return "first-call"
+		}
 		if p, ok := canonOf(o.Pre); !ok || p != recvCanon {
 			return "first-step"
 		}
@@ -305,7 +317,7 @@ func compare(c *Case, e *Exp, o *Obs) string {
 }
 
 func expect(c *Case, at atoms) Exp {
-	if c.Fam == "str" {
+	if c.Fam == "str" || c.Fam == "str3" {
 		return expectStr(c, at)
 	}
 	if c.Fam == "aft" {
@@ -313,6 +325,12 @@ func expect(c *Case, at atoms) Exp {
 	}
 	if c.Fam == "nest" {
 		return expectNest(c, at)
+	}
+	if c.Fam == "strk" {
+		return expectStrK(c, at)
+	}
+	if c.Fam == "argn" {
+		return expectArgNull(c, at)
 	}
 	// "arr2": c.Recv is the model's receiver after the first step
 	return expectArr(c, at)
